@@ -5,7 +5,7 @@
    sequence acts (any interleaving of any number of connections' actions, any length) is a behaviour of
    the server, ending in state s with trace tr (each action followed by what it made observable).
    cfg (UDP on/off, bandwidth settings) and masq (the masquerade handler, any function) are arbitrary. *)
-From Hy Require Import model.C01_ServerAuth proof.C01_ServerAuth.
+From Hy Require Import model.C01_ServerAuth proof.C01_ServerAuth proof.C01_AnyId.
 Local Open Scope N_scope.
 
 (* Every Outbound.TCP / Outbound.UDP call and every relayed payload for a connection c is preceded, in the
@@ -55,3 +55,22 @@ Theorem C01_online_paired : forall cfg masq acts s tr c,
   (forall pre id post, tr = pre ++ EObs (ObsOnline c id false) :: post -> In (EObs (ObsOnline c id true)) pre).
 Proof. exact online_paired. Qed.
 Print Assumptions C01_online_paired.
+
+(* The client id of the accepting verdict plays no part: Authenticate may answer (true, id) with ANY id - the
+   empty string included (h.authenticated and h.authID are separate fields).  After an accepting verdict with an
+   arbitrary id on c in a reachable state, whatever follows on any connection: c stays authenticated under that
+   very id, the authenticator is not called for c again, no verdict is taken for c again, and as long as c is
+   open every auth request on it is answered in one step by the 233 response alone - no authenticator call, no
+   masquerade call, no second online / connect event, state unchanged.  (proof/C01_AnyId.v has the instance
+   id = [] and runs the history accept-with-empty-id / wrong credentials / repeat / proxy / close in the model.) *)
+Theorem C01_accept_with_any_id_is_final : forall cfg masq acts1 s0 tr0 c id pad s1 o acts2 s2 tr2,
+  run cfg masq init acts1 = Some (s0, tr0) ->
+  step cfg masq s0 (AuthVerdict c true id pad) = Some (s1, o) ->
+  run cfg masq s1 acts2 = Some (s2, tr2) ->
+  authed (s2 c) = true /\ auth_id (s2 c) = id /\
+  (forall auth tx, ~ In (EObs (ObsAuthCall c auth tx)) tr2) /\
+  (forall ok id' pad', ~ In (EAct (AuthVerdict c ok id' pad')) tr2) /\
+  (closed (s2 c) = false -> forall r pad2, is_auth_req r = true ->
+     step cfg masq s2 (HttpReq c r pad2) = Some (s2, [ObsResp c r (resp_auth_ok cfg pad2)])).
+Proof. exact accept_with_any_id_is_final. Qed.
+Print Assumptions C01_accept_with_any_id_is_final.
